@@ -457,7 +457,7 @@ func checkLastSaved(c *Ctx) {
 		c.anchorMissing("PASS-last-saved", "MutableTree.lastSaved")
 	} else {
 		for _, fn := range []*ssa.Function{sv, lv} {
-			q := mustState(fn, false, func(in ssa.Instruction) bool { return isStoreToField(in, fLast) }, nil)
+			q := mustState(fn, false, l.storeOrReset(fLast, false), nil)
 			var bad *ssa.Return
 			for _, r := range successReturns(fn) {
 				// LoadVersion on an empty store returns before anything is loaded
